@@ -626,6 +626,32 @@ func c06Check(c C06Case) *pbt.Violation {
 			}
 		}
 	}
+	// no strict prefix of a short packet holds all its fields (a field that reads to the end of the packet excepted):
+	// wherever the data stops - right behind a length prefix, inside a number - Scan reports it
+	if len(p.Data) > 0 && len(p.Data) <= 80 {
+		plugin := false
+		for _, f := range c.Fields {
+			if hasKind(f, "plugin") {
+				plugin = true
+			}
+		}
+		for cut := 0; cut < len(p.Data) && !plugin; cut++ {
+			var decs3 []pk.FieldDecoder
+			for _, f := range c.Fields {
+				d, _ := f.decoder()
+				decs3 = append(decs3, d)
+			}
+			short := pk.Packet{ID: c.ID, Data: p.Data[:cut:cut]}
+			var serr error
+			if pv, stack := pbt.Try(func() { serr = short.Scan(decs3...) }); pv != nil {
+				return pbt.V(pbt.PanicKey("c06.scan", stack), "no panic", "Scan of a packet cut after %d of %d bytes panicked: %v\n%s", cut, len(p.Data), pv, stack)
+			}
+			if serr == nil {
+				return pbt.V("c06.scan.prefix-accepted", "Scan composes the fields in order (all of them); reading back yields what was written",
+					"Scan of %d fields succeeded on the first %d of the packet's %d bytes (% x)", len(c.Fields), cut, len(p.Data), p.Data)
+			}
+		}
+	}
 	var err error
 	if pv, stack := pbt.Try(func() { err = p.Scan(decs...) }); pv != nil {
 		return pbt.V(pbt.PanicKey("c06.scan", stack), "no panic", "Scan panicked: %v\n%s", pv, stack)
